@@ -19,6 +19,7 @@ import (
 	"os/exec"
 	"path/filepath"
 	"sort"
+	"strconv"
 	"strings"
 	"sync"
 	"time"
@@ -106,11 +107,16 @@ func sorted(l []string) []string {
 
 func run(c *core.Ctx) error {
 	specDir := filepath.Join(core.VerifRoot, "spec", "TestRunner")
-	b := bounds{MaxTokens: 6, MaxCases: 3, MaxDepth: 2, MaxPaths: 2, MaxTokens2: 3}
+	b := bounds{MaxTokens: 5, MaxCases: 3, MaxDepth: 2, MaxPaths: 2, MaxTokens2: 3}
 	if c.Thorough() {
-		b = bounds{MaxTokens: 8, MaxCases: 4, MaxDepth: 2, MaxPaths: 2, MaxTokens2: 5, GrepPairs: true}
+		b = bounds{MaxTokens: 7, MaxCases: 4, MaxDepth: 2, MaxPaths: 2, MaxTokens2: 4, GrepPairs: true}
 	}
 	nSample := c.Pick(300, 6000)
+	// developer aid (kill-testing mutants on a busy machine): VERIF_C34_MAXTOKENS shrinks the family
+	if v, err := strconv.Atoi(os.Getenv("VERIF_C34_MAXTOKENS")); err == nil && v >= 3 {
+		b.MaxTokens = v
+		c.Note(fmt.Sprintf("family shrunk by VERIF_C34_MAXTOKENS=%d", v))
+	}
 
 	// ---- the real binary, built while TLC works
 	elkBin := filepath.Join(c.Scratch, "elk")
@@ -123,7 +129,7 @@ func run(c *core.Ctx) error {
 	go func() {
 		small := bounds{MaxTokens: 5, MaxCases: 2, MaxDepth: 2, MaxPaths: 1, MaxTokens2: 0}
 		for _, dev := range specDeviations {
-			r, err := tlc.Run(tlc.Opts{SpecDir: specDir, Module: "MC_TestRunnerFamily", Cfg: "ctl.cfg", Scratch: c.Scratch, Workers: 2, Timeout: 5 * time.Minute,
+			r, err := tlc.Run(tlc.Opts{SpecDir: specDir, Module: "MC_TestRunnerFamily", Cfg: "ctl.cfg", Scratch: c.Scratch, Workers: 2, Timeout: 30 * time.Minute,
 				Extra: map[string][]byte{"ctl.cfg": []byte(familyCfg(small, []string{dev}, "none"))}})
 			if err != nil {
 				ctlErr <- err
@@ -141,7 +147,7 @@ func run(c *core.Ctx) error {
 	// ---- 1. model checking of the family; one record per (tree, filters)
 	var family []Instance
 	t0 := time.Now()
-	fam, err := tlc.Run(tlc.Opts{SpecDir: specDir, Module: "MC_TestRunnerFamily", Cfg: "family.cfg", Scratch: c.Scratch, Workers: c.Workers, Timeout: 15 * time.Minute,
+	fam, err := tlc.Run(tlc.Opts{SpecDir: specDir, Module: "MC_TestRunnerFamily", Cfg: "family.cfg", Scratch: c.Scratch, Workers: c.Workers, Timeout: 40 * time.Minute,
 		Coverage: c.Thorough(),
 		Extra:    map[string][]byte{"family.cfg": []byte(familyCfg(b, nil, "registered"))},
 		OnGen: func(rec []byte) {
@@ -400,7 +406,7 @@ func predict(c *core.Ctx, specDir string, insts []Instance, devSets [][]string) 
 	}
 	pred := map[string]map[int]*Prediction{}
 	var bad error
-	res, err := tlc.Run(tlc.Opts{SpecDir: specDir, Module: "MC_TestRunnerReplay", Cfg: "replay.cfg", Scratch: c.Scratch, Workers: c.Workers, Timeout: 10 * time.Minute,
+	res, err := tlc.Run(tlc.Opts{SpecDir: specDir, Module: "MC_TestRunnerReplay", Cfg: "replay.cfg", Scratch: c.Scratch, Workers: c.Workers, Timeout: 40 * time.Minute,
 		Extra: map[string][]byte{"replay.cfg": []byte(replayCfg(devSets)), "instances.ndjson": []byte(nd.String())},
 		OnGen: func(rec []byte) {
 			var p Prediction
